@@ -1,6 +1,8 @@
 import TT.Model.Pipe
 import TT.Lemmas.Pipe
 import TT.Props.C10
+import TT.Model.QuicTimers
+import TT.Lemmas.QuicTimers
 /-!
 # C14  Idle and establishment timeouts fire when, and only when, they should
 (idle timer of the TCP tunnel; the establishment / handshake timeouts are `tokio::time::timeout`
@@ -131,3 +133,72 @@ example : handle ⟨.connect, some "example.org:443", false, some 443, none⟩ .
     ⟨.delayedOk 30000, 30000, false, some true, false⟩ = [.egress .tcpConnect, ok200] := by decide
 
 end TT.Dispatch
+
+/-! ### the QUIC multiplexer's timer bookkeeping (`quic_multiplexer.rs`, model `TT.QuicTimers`)
+
+QUIC's loss-detection, idle and draining timers only do anything when the multiplexer calls
+`on_timeout`; it does so from the one place that sleeps until `closest_deadline`. -/
+namespace TT.QuicTimers
+
+/-- **No armed deadline is missed**: after every history of datagrams processed (`arm`), connections
+removed and loop iterations (`tick`), the instant the loop sleeps until is not later than any
+armed deadline - in particular the timer branch is enabled whenever a deadline is armed -/
+theorem closest_not_after_any_deadline (ops : List Op) :
+    let s := run {} ops
+    ∀ e ∈ s.deadlines, ∃ c, s.closest = some c ∧ c ≤ e.2 ∧ s.timerEnabled = true := by
+  intro s e he
+  obtain ⟨c, hc, hle⟩ := inv_run {} ops inv_init e he
+  exact ⟨c, hc, hle, by show (run {} ops).closest.isSome = true; rw [hc]; rfl⟩
+
+/-- after a loop iteration the sleep target is exactly the earliest armed deadline (it is re-computed,
+not only ever moved earlier) ... -/
+theorem tick_recomputes (s : St) (now : Nat) (rearm : List (Conn × Nat)) :
+    (step s (.tick now rearm)).closest = minDeadline (step s (.tick now rearm)).deadlines := rfl
+
+/-- ... every deadline that had passed was handled (removed, and re-armed only with the connection's
+next timer, which lies in the future) ... -/
+theorem tick_handles_expired (s : St) (now : Nat) (rearm : List (Conn × Nat)) (hr : ∀ r ∈ rearm, now < r.2) :
+    ∀ e ∈ (step s (.tick now rearm)).deadlines, now < e.2 := by
+  intro e he
+  simp only [step] at he
+  rcases mem_foldl_put rearm _ e he with h | h
+  · have := (List.mem_filter.1 h).2
+    simp only [Bool.not_eq_eq_eq_not, Bool.not_true, decide_eq_false_iff_not, Nat.not_le] at this
+    exact this
+  · exact hr e h
+
+/-- ... so a wake-up always makes progress: afterwards either nothing is armed (the timer branch is
+off until the next datagram) or the new sleep target lies in the future - the loop neither spins on a
+passed deadline nor stops serving timers after the first one (the defect fixed by 17fbb9c) -/
+theorem wake_up_makes_progress (s : St) (now : Nat) (rearm : List (Conn × Nat)) (hr : ∀ r ∈ rearm, now < r.2) :
+    let s' := step s (.tick now rearm)
+    (s'.deadlines = [] ∧ s'.timerEnabled = false) ∨ (∃ c, s'.closest = some c ∧ now < c) := by
+  intro s'
+  cases hm : minDeadline s'.deadlines with
+  | none =>
+    left
+    have hnil : s'.deadlines = [] := by
+      cases hd : s'.deadlines with
+      | nil => rfl
+      | cons x xs =>
+        have := minDeadline_isSome_of_mem s'.deadlines x (by rw [hd]; simp)
+        rw [hm] at this; cases this
+    refine ⟨hnil, ?_⟩
+    have : s'.closest = none := by rw [show s'.closest = minDeadline s'.deadlines from rfl, hm]
+    simp [St.timerEnabled, this]
+  | some m =>
+    right
+    obtain ⟨e, he, hem⟩ := minDeadline_mem s'.deadlines m hm
+    refine ⟨m, by rw [show s'.closest = minDeadline s'.deadlines from rfl, hm], ?_⟩
+    have := tick_handles_expired s now rearm hr e he
+    omega
+
+example :
+    let ops := [Op.arm "a" 100, .arm "b" 50, .tick 60 [("b", 90)], .remove "b", .arm "a" 300, .tick 100 [], .tick 400 []]
+    (run {} (ops.take 2)).closest = some 50
+    ∧ (run {} (ops.take 3)) = ⟨[("a", 100), ("b", 90)], some 90⟩
+    ∧ (run {} (ops.take 4)) = ⟨[("a", 100)], some 90⟩          -- stale-early after a removal: harmless
+    ∧ (run {} (ops.take 6)) = ⟨[("a", 300)], some 300⟩
+    ∧ (run {} ops) = ⟨[], none⟩ := by decide
+
+end TT.QuicTimers
